@@ -234,31 +234,33 @@ pub fn case(tape: &[u32]) -> CaseOutcome {
         return pinned_d16();
     }
     let thorough = std::env::var("VERIF_TIER").map(|t| t == "thorough").unwrap_or(false);
-    let mut t = Tape::new(tape);
-    let which = t.choose(4);
+    let (aux, main) = split_tape(tape);
+    let mut a = Tape::new(&aux);
+    let mut t = Tape::new(&main);
+    let which = a.choose(4);
+    let sources = pick_sources(&mut a, 1);
     let (prog, globals) = if which == 0 {
         let (p, _) = super::c04::scenario(&mut t, false);
         (p, BTreeMap::new())
     } else {
         let mut cfg = if which == 1 { GenCfg::full() } else { GenCfg::fragment() };
-        cfg.scoped_heavy = t.chance(1, 2);
-        cfg.collisions = t.chance(1, 3);
+        cfg.scoped_heavy = a.chance(1, 2);
+        cfg.collisions = a.chance(1, 3);
         cfg.max_stanzas = if thorough { 8 } else { 5 };
         cfg.max_stmts = 3;
         cfg.prints = false;
-        cfg.fault = t.chance(1, 8);
+        cfg.fault = a.chance(1, 8);
         let g = crate::gen::generate(&mut t, &cfg);
         (g.prog, g.globals)
     };
     if prog.stanzas().count() < 2 {
         return CaseOutcome::Discard("fewer than two stanzas");
     }
-    let sources = pick_sources(&mut t, 1);
-    check_program(&prog, &globals, &sources, if thorough { 5 } else { 4 }, if thorough { 60 } else { 12 }, &mut t, "C08")
+    check_program(&prog, &globals, &sources, if thorough { 5 } else { 4 }, if thorough { 60 } else { 12 }, &mut a, "C08")
 }
 
 pub fn spec(tier: &str) -> Spec {
-    let mut s = Spec::new("C08", tier, 1_500, 12_000, 700);
+    let mut s = Spec::new("C08", tier, 1_500, 12_000, 1200);
     s.rule = "accepted files of 2-8 stanzas (a quarter scoped-variable scenarios with definers and readers in separate stanzas, half programs of the order-insensitive fragment, a quarter unrestricted programs; graph nodes never rendered to text), executed lazily in file order and under ALL n! stanza permutations for n <= 4 (quick) / n <= 5 (thorough), and under the reversal plus 12 / 60 sampled permutations beyond; global / inherit / shorthand items keep their place. Oracle: same Ok/Err as the file order and, on Ok, isomorphic graphs. evaluations = lazy executions. Non-trivial: >=1 cross-stanza dependency (scoped name defined in one stanza and read in another, or an edge and its attributes in different stanzas) and a successful run. Distinct = fingerprint of (DSL text, source).".into();
     s.assumptions = vec!["known finding D16 (comprehension inside a shorthand over a scoped argument) is excluded by construction and pinned separately".into()];
     s
